@@ -160,22 +160,11 @@ func (p *SyncedPool) Flush(id []byte) error {
 
 func (p *SyncedPool) flush(id []byte) error {
 	queuedDropsList := p.popQueuedDrops()
-	// close and drop DBs
+	// exclude DBs to be dropped
+	dropped := make([]wrappers, 0, len(queuedDropsList))
 	for _, name := range queuedDropsList {
-		w := p.wrappers[name]
+		dropped = append(dropped, p.wrappers[name])
 		delete(p.wrappers, name)
-		if w.Flushable == nil {
-			continue
-		}
-		err := w.Flushable.RealClose()
-		if err != nil {
-			return err
-		}
-		db := w.Flushable.underlying
-		if db == nil {
-			continue
-		}
-		db.Drop()
 	}
 
 	// write dirty flags
@@ -189,6 +178,34 @@ func (p *SyncedPool) flush(id []byte) error {
 		if err != nil {
 			return err
 		}
+	}
+
+	// close and drop DBs
+	// it's done after the dirty flags are written, so that a crash after a drop
+	// isn't mistaken for the previous (clean) flush state
+	for _, w := range dropped {
+		if w.Flushable == nil || w.Flushable.underlying == devnull {
+			continue
+		}
+		// if every DB gets dropped, then the not yet dropped ones carry the dirty flag
+		err := MarkFlushID(w.Flushable.underlying, p.flushIDKey, DirtyPrefix, id)
+		if err != nil {
+			return err
+		}
+	}
+	for _, w := range dropped {
+		if w.Flushable == nil {
+			continue
+		}
+		err := w.Flushable.RealClose()
+		if err != nil {
+			return err
+		}
+		db := w.Flushable.underlying
+		if db == nil {
+			continue
+		}
+		db.Drop()
 	}
 
 	// flush data
